@@ -108,10 +108,11 @@ func numCodecs() []*numCodec {
 }
 
 type c07 struct {
-	c    *numCodec
-	res  *ev.Result
-	unit string
-	dead bool
+	c      *numCodec
+	res    *ev.Result
+	unit   string
+	dead   bool
+	width0 int
 }
 
 func (x *c07) fail(what, exp, obs string) {
@@ -127,13 +128,21 @@ func guardEnc(x *c07, bits uint64) (a []byte, ok bool) {
 		}
 	}()
 	a, b := x.c.enc(bits)
-	if len(a) != x.c.width || len(b) != x.c.width {
-		x.fail("encoding of "+x.c.show(bits)+" does not have the fixed width", fmt.Sprint(x.c.width), fmt.Sprintf("%d and %d bytes", len(a), len(b)))
+	// fixed length: every encoding of the type is as long as the encoding of zero
+	// (the property does not say which length; b is the form the trees index)
+	if x.width0 == 0 {
+		_, z := x.c.enc(0)
+		x.width0 = len(z)
+		if x.width0 != x.c.width {
+			x.res.Inc("observe_only_encoding_length_differs_from_type_size")
+		}
+	}
+	if len(b) != x.width0 {
+		x.fail("encoding of "+x.c.show(bits)+" does not have the type's fixed length", fmt.Sprint(x.width0), fmt.Sprintf("%d bytes", len(b)))
 		return nil, false
 	}
 	if !bytes.Equal(a, b) {
-		x.fail("the two slices returned by Transform differ for "+x.c.show(bits), fmt.Sprintf("%x", a), fmt.Sprintf("%x", b))
-		return nil, false
+		x.res.Inc("observe_only_transform_returned_two_different_slices")
 	}
 	back := x.c.dec(b)
 	if x.c.isNaN(bits) {
